@@ -13,6 +13,7 @@
 #include "engine/faults.hh"
 #include <algorithm>
 #include <fcntl.h>
+#include <sys/personality.h>
 
 using namespace vf;
 namespace fi = vf::fi;
@@ -22,6 +23,9 @@ namespace c14 {
 std::vector<Scenario>& registry() { static std::vector<Scenario> v; return v; }
 Coefficient& MAG() { static Coefficient m(1); return m; }
 
+static volatile int* phase_ptr;
+void set_phase(int p) { if (phase_ptr) *phase_ptr = p; }
+void set_phase_ptr(volatile int* p) { phase_ptr = p; }
 static Abandon the_abandon;
 static unsigned long cp_count, cp_target;
 static bool cp_fired;
@@ -55,17 +59,17 @@ void region_end(Run& r) {
 
 } // namespace c14
 using namespace c14;
-namespace c14 { void set_cp_bt(void** p); }
+namespace c14 { void set_cp_bt(void** p); void set_phase_ptr(volatile int* p); }
 
 static Args ARGS;
 static std::vector<Scenario> SC;     // selected scenarios
-struct Dry { unsigned long allocs, checkpoints; bool ok; };
+struct Dry { unsigned long allocs, checkpoints; bool ok; bool overflowed; };
 static std::vector<Dry> DRYS;
 
 // per scenario shared statistics
 struct ScStat { volatile long long runs, fired, leaks, cache_growth, other; };
 static ScStat* SST;
-enum { CNT_EVAL = CNT_USER, CNT_FIRED, CNT_LEAK, CNT_CACHE, CNT_PROBLEMS, CNT_OVF_FIRED, CNT_ABN_FIRED, CNT_ALLOC_FIRED, CNT_NOTFIRED };
+enum { CNT_EVAL = CNT_USER, CNT_FIRED, CNT_LEAK, CNT_CACHE, CNT_PROBLEMS, CNT_OVF_FIRED, CNT_ABN_FIRED, CNT_ALLOC_FIRED, CNT_NOTFIRED, CNT_TP_LEAK };
 
 static const char* mode_name(Mode m) { return m == DRY ? "dry" : m == ALLOC ? "alloc" : m == ABANDON ? "abandon" : "overflow"; }
 static const char* mode_clause(Mode m) { return m == ALLOC ? "oom" : m == ABANDON ? "abandon" : m == OVERFLOW ? "overflow" : "nofault"; }
@@ -148,7 +152,7 @@ static void** SHARED_BT;   // shared mapping used to get the fault site out of a
 static std::string fault_trigger(Mode m, unsigned long k, std::string* chain = 0) {
   if (m == ALLOC) return "failed_allocation_in_" + fi::ident(site_of_stack(fi::fired_stack(), chain));
   if (m == ABANDON) return "abandoned_in_" + fi::ident(site_of_stack(std::vector<void*>(CP_BT, CP_BT + fi::BT_DEPTH), chain));
-  if (m == OVERFLOW) return "magnitude_" + std::to_string(LADDER[k]);
+  if (m == OVERFLOW) return "coefficient_overflow_raised";
   return "none";
 }
 
@@ -177,7 +181,7 @@ static bool judge(int si, Mode m, unsigned long k) {
   Caught allowed = m == ALLOC ? C_BAD_ALLOC : m == ABANDON ? C_ABANDON : m == OVERFLOW ? C_OVERFLOW : C_NONE;
   // which exception escaped: the injected one only (std::overflow_error is also legitimate on a bounded-coefficient build)
   auto wrong_exception = [&](const Outcome& x, std::string& what) -> bool {
-    bool native = sizeof(Coefficient) < 8;
+    bool native = bounded_coefficients();
     if (x.escaped) {
       if (!(x.escaped_kind == C_OVERFLOW && (m == OVERFLOW || native))) {
         what = std::string("outside the faulted region: ") + caught_name(x.escaped_kind) + " " + x.escaped_what; return true; }
@@ -242,6 +246,16 @@ static bool judge(int si, Mode m, unsigned long k) {
     long long nth = __sync_fetch_and_add(&SST[si].leaks, 1);
     size_t n = n_surv;
     size_t mblocks = std::min<size_t>(n, LB_MAX);
+    // Which of the blocks that survived the second run are lost, and which merely took the place of an older block
+    // in one of the library's caches of temporaries (swap with a cached temporary)?  A third identical run swaps
+    // the latter out again and frees them; a lost block stays.
+    {
+      Outcome o3;
+      run_once(s, m, k, o3);
+      size_t w = 0;
+      for (size_t b = 0; b < mblocks; ++b) if (fi::still_live(LB[b].p, LB[b].seq)) LB[w++] = LB[b];
+      if (w > 0) { mblocks = w; n = w; }   // (if none stayed, keep them all: the report then lists every candidate site)
+    }
     std::vector<void*> addrs;
     for (size_t b = 0; b < mblocks; ++b) for (int f = 0; f < fi::BT_DEPTH; ++f) addrs.push_back(LB[b].bt[f]);
     std::vector<std::string> names = fi::symbolize(addrs);
@@ -263,7 +277,7 @@ static bool judge(int si, Mode m, unsigned long k) {
     if (best.empty()) best = "unknown";
     std::string chain;
     if (mblocks) fi::alloc_site(names, 0, fi::BT_DEPTH, &chain);
-    std::string lsite = s.site;
+    std::string lsite = s.site, third_party;
     if (mblocks && m != OVERFLOW) {
       std::vector<void*> fstack = (m == ABANDON) ? std::vector<void*>(CP_BT, CP_BT + fi::BT_DEPTH) : fi::fired_stack();
       std::vector<std::string> fn = fi::symbolize(fstack), an(names.begin(), names.begin() + fi::BT_DEPTH);
@@ -271,14 +285,35 @@ static bool judge(int si, Mode m, unsigned long k) {
       std::vector<std::string> fs, as;
       for (size_t i = fn.size(); i-- > 0; ) if (!fn[i].empty()) fs.push_back(fn[i]);
       for (size_t i = an.size(); i-- > 0; ) if (!an[i].empty()) as.push_back(an[i]);
-      std::string common;
-      for (size_t i = 0; i < fs.size() && i < as.size() && fs[i] == as[i]; ++i) if (fi::is_ppl_frame(fs[i])) common = fi::short_name(fs[i]);
+      std::string common, deepest;
+      for (size_t i = 0; i < fs.size() && i < as.size() && fs[i] == as[i]; ++i) { deepest = fs[i]; if (fi::is_ppl_frame(fs[i])) common = fi::short_name(fs[i]); }
+      // Both the surviving block and the failing request were made inside one and the same call of a GMP (C) or
+      // C++ run-time function: that function cannot release what it holds when an allocation function throws.
+      // This is the documented limitation of GMP, not something the library under test can repair.
+      if (fi::is_third_party_frame(deepest)) third_party = fi::short_name(deepest);
+      // gmpxx's constructors (mpq_class copy: two consecutive mpz_init_set; construction from an expression:
+      // mpq_init, then the evaluation) cannot release what the first GMP call allocated when the next one throws:
+      // the same limitation, in the C++ wrapper of GMP.  Recognised by: every lost block was allocated directly by
+      // a GMP function (at most two blocks: numerator, denominator), and the lost blocks are exactly the requests immediately preceding the failing one.
+      if (m == ALLOC && mblocks >= 1 && mblocks <= 2) {
+        bool pattern = true;
+        std::set<unsigned long> reqs;
+        for (size_t b = 0; b < mblocks && pattern; ++b) {
+          std::string a0;
+          for (int f = 0; f < fi::BT_DEPTH; ++f) if (!names[b * fi::BT_DEPTH + f].empty()) { a0 = names[b * fi::BT_DEPTH + f]; break; }
+          if (a0.compare(0, 5, "__gmp") != 0) pattern = false;   // mpz_init_set, mpq_init, or the first mpz_set into a lazily allocated mpz
+          if (LB[b].req == 0 || LB[b].req >= k || LB[b].req + mblocks < k) pattern = false;
+          reqs.insert(LB[b].req);
+        }
+        if (pattern && reqs.size() == mblocks) third_party = "gmpxx object under construction";
+      }
       if (!common.empty()) lsite = common;
     }
     std::string sites;
     for (std::map<std::string, std::pair<long, size_t> >::iterator it = by_site.begin(); it != by_site.end(); ++it)
       sites += (sites.empty() ? "" : ", ") + it->first + " x" + std::to_string(it->second.first);
     std::string trig = "leaked_block_allocated_in_" + fi::ident(best);
+    if (!third_party.empty()) { count(CNT_TP_LEAK); if (verbose) fprintf(stderr, "[c14] leak inside third-party %s\n", third_party.c_str()); return fired; }
     if (violcap().admit(lsite + cl + "leak" + trig) || verbose)
       report_violation(lsite, cl + ":leak", trig,
                        input_json(s, si, m, k, inner(J().str("operation", s.site).num("balance_first_run", o.balance).num("balance_second_run", o2.balance)
@@ -306,6 +341,12 @@ static std::string json_field(const std::string& txt, const std::string& key) {
 }
 
 int main(int argc, char** argv) {
+  // Whether memory corrupted by a non-exception-safe function ends in a crash depends on the heap layout: run with
+  // address-space randomisation off so that the same (scenario, k) behaves the same from run to run.
+  if (!getenv("C14_NOASLR")) {
+    setenv("C14_NOASLR", "1", 1);
+    if (personality(ADDR_NO_RANDOMIZE) != -1) { execv("/proc/self/exe", argv); }
+  }
   ARGS = parse_args(argc, argv);
   sink().open(ARGS.out);
   double t0 = now_s();
@@ -345,7 +386,7 @@ int main(int argc, char** argv) {
   memset((void*)SST, 0, sizeof(ScStat) * SC.size());
   DRYS.resize(SC.size());
   LB = (fi::LiveBlock*)malloc(sizeof(fi::LiveBlock) * LB_MAX);
-  SHARED_BT = (void**)mmap(0, sizeof(void*) * 2 * fi::BT_DEPTH, PROT_READ | PROT_WRITE, MAP_SHARED | MAP_ANONYMOUS, -1, 0);
+  SHARED_BT = (void**)mmap(0, sizeof(void*) * (2 * fi::BT_DEPTH + 1), PROT_READ | PROT_WRITE, MAP_SHARED | MAP_ANONYMOUS, -1, 0);
   CP_BT = (void**)calloc(fi::BT_DEPTH, sizeof(void*));
   c14::set_cp_bt(CP_BT);
 
@@ -358,7 +399,8 @@ int main(int argc, char** argv) {
     alarm(0);
     DRYS[i].allocs = o.r.allocs; DRYS[i].checkpoints = o.r.checkpoints;
     DRYS[i].ok = o.r.entered && o.r.completed && !o.escaped && o.r.n_problems == 0 && o.balance <= 0;
-    bool native_overflow = (o.r.caught == C_OVERFLOW || (o.escaped && o.escaped_kind == C_OVERFLOW)) && sizeof(Coefficient) < 8;
+    bool native_overflow = (o.r.caught == C_OVERFLOW || (o.escaped && o.escaped_kind == C_OVERFLOW)) && bounded_coefficients();
+    DRYS[i].overflowed = native_overflow;
     if (verbose || !DRYS[i].ok)
       fprintf(stderr, "[c14] dry %-60s allocs=%lu checkpoints=%lu completed=%d balance=%ld problems=%d%s%s\n", SC[i].name.c_str(), o.r.allocs, o.r.checkpoints,
               o.r.completed, o.balance, o.r.n_problems, o.r.n_problems ? " " : "", o.r.n_problems ? o.r.detail[0] : "");
@@ -380,16 +422,20 @@ int main(int argc, char** argv) {
   }
 
   // ---- items
+  unsigned long max_allocs = strtoul(ARGS.opt("--max-allocs", "0").c_str(), 0, 10);
+  size_t n_enumerated = 0;
   for (size_t i = 0; i < SC.size(); ++i) {
-    if (!DRYS[i].ok && !want_ovf) continue;
-    if (want_alloc) {
+    if (!DRYS[i].ok && !(want_ovf && DRYS[i].overflowed)) continue;   // an unclean unfaulted run has been reported already
+    if (max_allocs && DRYS[i].allocs > max_allocs) continue;   // left to the thorough tier
+    ++n_enumerated;
+    if (want_alloc && DRYS[i].ok) {
       unsigned long N = DRYS[i].allocs;
       for (unsigned long lo = 1; lo <= N || lo == 1; lo += chunk) {
         Item it; it.si = i; it.m = ALLOC; it.lo = lo; it.hi = std::min<unsigned long>(lo + chunk - 1, std::max<unsigned long>(N, 1)); it.last = (lo + chunk > N);
         ITEMS.push_back(it);
       }
     }
-    if (want_abn && DRYS[i].checkpoints > 0) {
+    if (want_abn && DRYS[i].ok && DRYS[i].checkpoints > 0) {
       Item it; it.si = i; it.m = ABANDON; it.lo = 1; it.hi = DRYS[i].checkpoints; it.last = true; ITEMS.push_back(it);
     }
     if (want_ovf) { Item it; it.si = i; it.m = OVERFLOW; it.lo = 0; it.hi = N_LADDER - 1; it.last = false; ITEMS.push_back(it); }
@@ -421,12 +467,13 @@ int main(int argc, char** argv) {
     __sync_fetch_and_add(&SST[it.si].other, 1);
     // where was the fault delivered?  run the case once more in a child that records the stack of the
     // failing request into a shared mapping before it goes on (and crashes)
-    memset(SHARED_BT, 0, sizeof(void*) * 2 * fi::BT_DEPTH);
+    memset(SHARED_BT, 0, sizeof(void*) * (2 * fi::BT_DEPTH + 1));
+    volatile int* phase = (volatile int*)(SHARED_BT + 2 * fi::BT_DEPTH);
     fflush(stdout); fflush(stderr);
     pid_t pid = fork();
     if (pid == 0) {
       alarm(120);
-      fi::st().fired_bt = SHARED_BT; c14::set_cp_bt(SHARED_BT + fi::BT_DEPTH);
+      fi::st().fired_bt = SHARED_BT; c14::set_cp_bt(SHARED_BT + fi::BT_DEPTH); c14::set_phase_ptr(phase);
       fi::bt_on(true);
       Outcome o; if (it.m == OVERFLOW) MAG() = Coefficient(LADDER[k]);
       int fd = open("/dev/null", O_WRONLY); if (fd >= 0) { dup2(fd, 2); }
@@ -437,9 +484,26 @@ int main(int argc, char** argv) {
     std::string chain, trig = "none";
     if (it.m == ALLOC) trig = "failed_allocation_in_" + fi::ident(site_of_stack(std::vector<void*>(SHARED_BT, SHARED_BT + fi::BT_DEPTH), &chain));
     else if (it.m == ABANDON) trig = "abandoned_in_" + fi::ident(site_of_stack(std::vector<void*>(SHARED_BT + fi::BT_DEPTH, SHARED_BT + 2 * fi::BT_DEPTH), &chain));
-    else if (it.m == OVERFLOW) trig = "magnitude_" + std::to_string(LADDER[k]);
-    report_violation(s.site, std::string(mode_clause(it.m)) + ":crash:" + signame(sig), trig, input_json(s, it.si, it.m, k, inner(J().str("fault_site_stack", chain))),
-                     signame(sig), "the injected exception propagates to the caller and all objects stay usable", "");
+    else if (it.m == OVERFLOW) trig = "coefficient_overflow_raised";
+    std::string cls = s.site.substr(0, s.site.find("::"));
+    std::string engine = engine_of_stack(it.m == ABANDON ? std::vector<void*>(SHARED_BT + fi::BT_DEPTH, SHARED_BT + 2 * fi::BT_DEPTH) : std::vector<void*>(SHARED_BT, SHARED_BT + fi::BT_DEPTH));
+    std::string ecls = engine.empty() ? cls : engine.substr(0, engine.find("::"));
+    if (*phase == 1) {
+      // the crash happened while the object left behind by the exceptional exit was being inspected (OK()) or used:
+      // the strongest symptom of "invalid after fault"
+      report_violation(ecls, std::string(mode_clause(it.m)) + ":invalid_after_fault", "fault_delivered_inside_member_of_" + fi::ident(ecls),
+                       input_json(s, it.si, it.m, k, inner(J().str("interrupted_member_function", engine).str("fault_site_stack", chain))),
+                       std::string(signame(sig)) + " when OK() / a well-formed operation is applied to the object left behind by the exceptional exit",
+                       "the object left behind by the exceptional exit is a valid object of its class (OK() holds, can be used)", "operation: " + s.site);
+      return;
+    }
+    // Outside that inspection (during the operation itself, unwinding, re-assignment, later use or destruction).
+    // Which allocation must fail for memory corruption to end in a crash varies with the heap layout, so the group is
+    // keyed by the class whose member function was interrupted; the function whose allocation failed is in the input.
+    report_violation(ecls, std::string(mode_clause(it.m)) + ":crash:" + signame(sig), "fault_delivered_inside_member_of_" + fi::ident(ecls),
+                     input_json(s, it.si, it.m, k, inner(J().str("operation", s.site).str("failed_request", trig).str("interrupted_member_function", engine)
+                                .str("phase", *phase == 0 ? "inside the faulted operation / unwinding" : "re-assignment, later use or destruction").str("fault_site_stack", chain))),
+                     signame(sig), "the injected exception propagates to the caller and all objects can be re-assigned, used and destroyed", "");
   };
   limit_memory(8ULL << 30);
   pool().run((long long)ITEMS.size(), ARGS.jobs, fn, cf, ARGS, 120);
@@ -458,17 +522,17 @@ int main(int argc, char** argv) {
     Mode m = want_alloc ? ALLOC : want_ovf ? OVERFLOW : ABANDON;
     samples.push_back(input_json(SC[i], i, m, m == OVERFLOW ? 3 : std::max<unsigned long>(1, DRYS[i].allocs / 2)));
   }
-  J extra; extra.num("scenarios", SC.size()).num("scenarios_registered", all.size()).str("modes", modes).num("work_items", ITEMS.size())
+  J extra; extra.num("scenarios", SC.size()).num("scenarios_enumerated", n_enumerated).num("scenarios_registered", all.size()).str("modes", modes).num("work_items", ITEMS.size())
     .num("allocation_requests_in_dry_runs", total_allocs)
     .num("faulted_runs", counter(CNT_EVAL)).num("fault_fired", counter(CNT_FIRED)).num("alloc_faults_fired", counter(CNT_ALLOC_FIRED))
     .num("abandonments_fired", counter(CNT_ABN_FIRED)).num("overflows_fired", counter(CNT_OVF_FIRED)).num("fault_not_reached", counter(CNT_NOTFIRED))
-    .num("leaking_runs_confirmed_by_second_run", counter(CNT_LEAK)).num("positive_balance_not_repeated(cache growth)", counter(CNT_CACHE))
+    .num("leaking_runs_confirmed_by_second_run", counter(CNT_LEAK)).num("of_which_inside_one_GMP_or_runtime_library_call(not reported)", counter(CNT_TP_LEAK)).num("positive_balance_not_repeated(cache growth)", counter(CNT_CACHE))
     .num("usability_problems", counter(CNT_PROBLEMS)).num("dry_run_problems", dry_problems).num("items_skipped_by_deadline", counter(CNT_SKIPPED))
     .dbl("phaseA_s", ta).arr("per_scenario", per);
   J st; st.str("t", "stats").num("states", SC.size()).num("transitions", std::max<long long>(1, counter(CNT_EVAL)))
     .num("traces_validated_against_impl", counter(CNT_EVAL)).num("evaluations", counter(CNT_EVAL)).num("distinct_nontrivial", counter(CNT_FIRED))
     .boolean("exhaustive", complete)
-    .str("bound", std::string("tier ") + ARGS.tier + ": " + std::to_string(SC.size()) + " scenarios x every fault position (modes " + modes + ")")
+    .str("bound", std::string("tier ") + ARGS.tier + ": " + std::to_string(n_enumerated) + " of " + std::to_string(SC.size()) + " scenarios" + (max_allocs ? " (those with at most " + std::to_string(max_allocs) + " allocation requests)" : "") + " x every fault position (modes " + modes + ")")
     .arr("samples", samples).raw("extra", extra.done()).dbl("wall_s", now_s() - t0);
   sink().line(st.done());
   return 0;
